@@ -187,5 +187,76 @@ def rule_lse(ctx):
     return res.finish(1)
 
 
+PARAM_FIELDS = ("weights", "means", "precisions_chol")
+
+
+def rule_posterior(ctx):
+    """predict / predict_proba are functions of the posterior, which depends on the mixing weights, the means and the
+    precision factors: the code reachable from each of them must read all three. A prediction computed from the bare
+    component densities (without the weights) is the maximum-likelihood component, not one of maximal probability."""
+    res = RuleResult("R-C10-posterior", "predict and predict_proba reach reads of the mixing weights, the means and the precision factors (the posterior depends on all three)")
+    F = ctx.facts()
+    fns = gmm_fns(F)
+    by_name = {}
+    for f in fns:
+        by_name.setdefault(f["d"]["name"], []).append(f)
+    getters = {}
+    direct = {}
+    for f in fns:
+        c = f["crate"]
+        self_local = None
+        for p_ in f["params"]:
+            if p_.get("k") == "Bind" and p_["name"] == "self":
+                self_local = p_["local"]
+        reads = set()
+        for x in walk(f["body"]):
+            if x.get("k") == "Field" and x["name"] in PARAM_FIELDS and peel_refs(x["e"]).get("local") == self_local and self_local is not None:
+                reads.add(x["name"])
+        direct[id(f)] = reads
+
+    def callees(f):
+        c = f["crate"]
+        out = []
+        for x in walk(f["body"]):
+            nm = None
+            if x.get("k") == "MethodCall":
+                d = c.dfn(x.get("def"))
+                if d is not None and d["krate"] == "linfa_clustering":
+                    nm = x["name"]
+            elif x.get("k") == "Call":
+                d = c.dfn(strip(x["f"]).get("def")) if strip(x["f"]).get("k") == "Path" else None
+                if d is not None and d["krate"] == "linfa_clustering":
+                    nm = d["name"]
+            if nm in by_name:
+                out.extend(by_name[nm])
+        return out
+
+    def reach_reads(f):
+        seen, todo, reads = set(), [f], set()
+        while todo:
+            g = todo.pop()
+            if id(g) in seen:
+                continue
+            seen.add(id(g))
+            reads |= direct[id(g)]
+            todo.extend(callees(g))
+        return reads, len(seen)
+
+    entries = [f for f in fns if (f["d"]["name"] == "predict_inplace" and (f["d"].get("trait") or "").endswith("PredictInplace")) or f["d"]["name"] == "predict_proba"]
+    if len(entries) < 2:
+        res.missing_anchor("GaussianMixtureModel::predict_proba and <GaussianMixtureModel as PredictInplace>::predict_inplace (found %d)" % len(entries))
+    for f in entries:
+        key = fn_key(f)
+        reads, nf = reach_reads(f)
+        for fld in PARAM_FIELDS:
+            res.instance("%s : reaches a read of self.%s" % (key, fld))
+            if fld in reads:
+                res.ok()
+            else:
+                res.violate("%s : ignores:%s" % (key, fld), "nothing reachable from `%s` (%d functions) reads `self.%s`: the result cannot be the posterior membership, which depends on it" % (f["d"]["name"], nf, fld), fn_loc(f))
+        res.sample({"entry": key, "functions_reached": nf, "reads": sorted(reads)})
+    return res.finish(6)
+
+
 def rules(tier):
-    return [rule_refresh, rule_err, rule_lse]
+    return [rule_refresh, rule_err, rule_lse, rule_posterior]
